@@ -80,11 +80,17 @@ package standard
 //@ func (*Service).generate
 // (assumed, not verified: goroutines, WaitGroup and a channel range) every returned endpoint is a non-nil peer record
 //@ func (*Service).generateDistributed
+//@ requires [checked] exists c string :: (c + "|" + account + "|" + "Create account") in checkedset
 //@ ensures [endpoints] result2 == nil ==> (forall i int :: 0 <= i && i < len(result1) ==> result1[i] != nil)
 //@ func (*Service).checkAccess
+//@ requires s != nil
+//@ modifies checkedset, deniedset
+//@ ensures [ok] result == core.ResultSucceeded ==> credentials != nil && (credentials.Client + "|" + accountName + "|" + action) in checkedset
 
 //@ func (*Service).OnGenerate
 //@ requires s != nil
+//@ modifies checkedset, deniedset
+//@ ensures [checked] result2 == nil ==> credentials != nil && (credentials.Client + "|" + account + "|" + ruler.ActionCreateAccount) in checkedset
 //@ ensures [threshold] result2 == nil ==> numParticipants >= 1 && signingThreshold <= numParticipants && 2 * signingThreshold > numParticipants
 //@ ensures [endpoints] result2 == nil ==> (forall i int :: 0 <= i && i < len(result1) ==> result1[i] != nil)
 
